@@ -854,3 +854,20 @@ package iscp
 //@   after call Upstream).processResult: hooked = false
 //@   loop 1 invariant !hooked
 //@   loop 2 invariant !hooked
+
+// ---------------------------------------------------------------- defaults (checked against the declarations)
+// `initial` facts are decided by evaluating the package-level declarations (and that no function of
+// the module reassigns them), not assumed.
+// C02 / C01: a stream opened with default options never gives up on an acknowledgement by itself -
+// no ack timeout is armed unless the application configures one (a timed-out chunk is dropped from
+// the sent storage as if it had been acknowledged: not retransmitted after a resume, not waited for
+// by Close).
+//@ initial[C02,C01] defaultUpstreamConfig.AckTimeout == 0
+// C15: the keepalive defaults the connection announces and uses when none is configured
+//@ initial[C15] defaultPingInterval == 10 * time.Second
+//@ initial[C15] defaultPingTimeout == time.Second
+//@ initial[C15] defaultClientConfig.PingInterval == 10 * time.Second
+//@ initial[C15] defaultClientConfig.PingTimeout == time.Second
+// C20: the default flush policy cuts a chunk every 100 ms or above 10000 buffered payload bytes
+//@ initial[C20] defaultFlushInterval == 100 * time.Millisecond
+//@ initial[C20] defaultFlushBufferSize == 10000
